@@ -77,6 +77,15 @@ def run(tier, seed):
         if sample is None and g.beh:
             b = g.beh[len(g.beh) // 2]
             sample = {"abstract": F.abstract(b), "ddl": T.render(b["hist"], seeds[0]), "expected": keep(T.expected(b["obs"], b["open"]))}
+    if thorough:
+        g = F.mc(F.consts(WithHist="TRUE", MaxCols=4, FocusAt=2, TypeForms='{"vc"}', Opts=F.optset(*(INLINE + [("ref", "r2"), ("check", "c1"), ("null", "notnull")])), MaxOpts=3,
+                          ItemKinds=F.ALLITEMS, ItemCols=F.IC6, MaxItems=4, Refs='{"r1","r2","r4"}', CheckIds='{"e1","e3","e5","e6"}'),
+                 "simulation: 4 columns, <=4 items, <=3 inline options", timeout=3000, simulate="num=30000", depth=16, seed=seed + 3)
+        ub = list({repr(b["hist"]): b for b in g.beh}.values())
+        n, nu, nbad = F.compare(V, ub, seeds[:2], "simulation", keep, layouts=("oneline", "multiline"))
+        total += n
+        uniq += nu
+        cov["generation"].append({"config": "simulation (4 columns, <=4 items)", "behaviours": len(ub), "renderings": n, "mismatches": nbad})
     rc = V.finish()
     cov.update({"states": states, "transitions": trans, "traces_validated_against_impl": total, "distinct_real_parses": uniq,
                 "seeds": seeds, "samples": [sample], "exhaustive": True, "known_findings_met": V.hits})
